@@ -9,3 +9,5 @@ func setHooks(h func()) {}
 var hookCount int64
 
 func countingHook() {}
+
+func recordEnters(f func()) []string { f(); return nil }
